@@ -10,7 +10,7 @@ use processor::{
 };
 use serde_json::{json, Value};
 use vm_core::{
-    crypto::{hash::Rpo256, merkle::{Mmr, Smt}},
+    crypto::{hash::Rpo256, merkle::{Mmr, MmrPeaks, Smt}},
     Felt, Word,
 };
 
@@ -48,6 +48,16 @@ pub fn run_one(sc: &Value) -> Value {
         native["mmr"] = json!({"num_leaves": acc.num_leaves(), "peaks": acc.peaks().iter().map(|d| word_json(&Word::from(*d))).collect::<Vec<_>>(),
                                 "hash_peaks": word_json(&acc.hash_peaks())});
         advice = advice.with_merkle_store(MerkleStore::from(&mmr));
+    }
+    // an accumulator given directly by its leaf count and peaks
+    if sc["mmr_peaks"].is_object() {
+        let nl = u(&sc["mmr_peaks"]["num_leaves"]) as usize;
+        let peaks: Vec<RpoDigest> = sc["mmr_peaks"]["peaks"].as_array().unwrap().iter().map(|w| RpoDigest::from(word(w))).collect();
+        match catch(|| MmrPeaks::new(nl, peaks).map(|p| p.hash_peaks())) {
+            Ok(Ok(h)) => native["mmr_peaks"] = json!({"hash_peaks": word_json(&Word::from(h))}),
+            Ok(Err(e)) => native["mmr_peaks_err"] = json!(format!("{e:?}")),
+            Err(m) => native["mmr_peaks_err"] = json!(m),
+        }
     }
     // sparse Merkle tree: entries before the program runs, and the operations the program performs (for the final root)
     if let Some(entries) = sc["smt"].as_array() {
